@@ -52,6 +52,16 @@ TIMES = [0, 0, 0.25, 0.5, 0.5, 1, 1, 1.5, 2, 3]
 HOLDS = [0, "y", "y", 0.25, 0.5, 0.5, 1, 1, 2]
 
 
+def _lock_state(kl):
+    """whatever per-key state the lock object still holds (any dict / set attribute of the instance that is not empty): the
+    property speaks of 'no lock state', not of particular attribute names"""
+    out = {}
+    for name, val in vars(kl).items():
+        if isinstance(val, (dict, set, list)) and val:
+            out[name] = sorted(map(str, val)) if not isinstance(val, dict) else {str(k): str(v)[:40] for k, v in val.items()}
+    return out
+
+
 def plan(tier, seed):
     n = 16 if tier == "quick" else 64
     per = 4000 if tier == "quick" else 20000
@@ -93,8 +103,8 @@ def _install_invariant(KeyedLock, mon_ref):
         mon = mon_ref.get("mon")
         if mon is not None and mon["kl"] is self:
             mon["inv_evals"] += 1
-            if mon["live"] == 0 and (self._locks or self._refs):
-                mon["inv_fail"].append({"locks": sorted(self._locks), "refs": dict(self._refs)})
+            if mon["live"] == 0 and _lock_state(self):
+                mon["inv_fail"].append(_lock_state(self))
         return True
 
     kind = "plain"
@@ -147,9 +157,9 @@ def run_case(case, acc: Acc):
         kl = mon["kl"]
         if mon["live"] == 0:
             acc.hit("idle_point_checked")
-            if kl._locks or kl._refs:
+            if _lock_state(kl):
                 viol.append(({"mech": "lock_state_left_when_idle", "where": where},
-                             f"no holder/waiter exists but _locks={sorted(kl._locks)} _refs={dict(kl._refs)} ({where})"))
+                             f"no holder/waiter exists but lock state {_lock_state(kl)} ({where})"))
 
     async def section(i, key, hold, inner):
         kl = mon["kl"]
@@ -273,9 +283,9 @@ def run_case(case, acc: Acc):
                     viol.append(({"mech": "acquirer_raised", "exc": type(out).__name__},
                                  f"task {i} ended with unexpected {out!r}"))
             acc.hit("final_empty_checked")
-            if kl._locks or kl._refs:
+            if _lock_state(kl):
                 viol.append(({"mech": "lock_state_left_when_idle", "where": "final"},
-                             f"all tasks finished but _locks={sorted(kl._locks)} _refs={dict(kl._refs)}"))
+                             f"all tasks finished but lock state {_lock_state(kl)}"))
     acc.hit("invariant_evals_" + KeyedLock._vf_inv_kind, mon["inv_evals"])
     for bad in mon["inv_fail"]:
         viol.append(({"mech": "lock_state_left_when_idle", "where": "class_invariant"},
